@@ -22,7 +22,7 @@ package safedetails
 
 //@ func WithSafeDetails
 //@   props C10 C07 C12
-//@   requires[C03] safeS(format)
+//@   requires[C03,C12] safeS(format)
 //@   ensures[C12] (err != nil && !(len(format) == 0 && len(args) == 0)) ==> result.(*withSafeDetails).safeDetails[0] == strip(redactOf(rSprintf(format, args)))
 //@   ensures err == nil ==> result == nil
 //@   ensures (err != nil && len(format) == 0 && len(args) == 0) ==> result == err
